@@ -12,8 +12,11 @@ var HangLimit = 180 * time.Second
 // oneshots are operations that can be run in a fresh process (C15).
 var oneshots = map[string]func() string{}
 
+var oneshotInit = func() {}
+
 // Oneshot runs one registered operation and prints its observation.
 func Oneshot(name string) {
+	oneshotInit()
 	f, ok := oneshots[name]
 	if !ok {
 		fmt.Fprintln(os.Stderr, "unknown oneshot", name)
